@@ -9,7 +9,12 @@
      Holds A s o       what C05 says of the outcome o of encoding the byte string s
      encode_spec A s   the outcome computed from the alphabet string alone
      pipeline_encode_raw p A junk s   Encode::encode_raw / encode on pipeline p, the
-                       uninitialised destination buffer holding [junk] *)
+                       uninitialised destination buffer holding [junk]
+     pipeline_encode_into_at p A text so n mem d m   (EncodeMem.v) encode_into on the sub-slices
+                       &text[so..so+n], &mut mem[d..d+m] of two allocations; window l off n = the
+                       elements [off, off+n) of l; window_outcome = what the harness prints of it
+     encode_into_neon  (EncodeInst.v) the arm/aarch64 kernel, same generic SIMD model with
+                       neon_params; abc_ok_neon adds its 256-value lane sweep *)
 From Coq Require Import List NArith Arith Bool Lia.
 From Coq.Strings Require Import Byte.
 From LMBase Require Import Res ListX.
